@@ -43,6 +43,50 @@ def _step(mach, sts, log, t):
     return ob
 
 
+def public_request(mach, t):
+    """The machine's own request method for transition t where it has one (they may do more than _perform_transition)."""
+    f = getattr(mach, t, None) if not t.startswith("_") else None
+    if callable(f) and getattr(f, "__self__", None) is mach:
+        return f
+    return lambda: mach._perform_transition(t)
+
+
+def reject_runs(machines, facs, seed, per_machine, length):
+    """Histories on the shipped machines through their public request methods: the full sequence on one object, the same
+    sequence without the rejected requests on a fresh one (RejectJudge)."""
+    rng = random.Random(seed * 31 + 1818)
+    out = []
+    rid = 0
+    for M in machines:
+        if M["name"] not in facs:
+            continue
+        alpha = list(M["trans"])
+        for _ in range(per_machine):
+            seq = [rng.choice(alpha) for _ in range(length)]
+
+            def play(requests):
+                log = []
+                mach, sts = smgen.make_real(M, facs, log)
+                init = smgen.observe(mach, sts)
+                steps = []
+                for t in requests:
+                    log.clear()
+                    ok = True
+                    try:
+                        public_request(mach, t)()
+                    except Exception:  # noqa: BLE001
+                        ok = False
+                    ob = smgen.observe(mach, sts)
+                    steps.append({"t": t, "ok": ok, "cur": ob["cur"], "active": ob["active"], "ev": [list(e) for e in log]})
+                return init, steps
+
+            init, full = play(seq)
+            _, filt = play([st["t"] for st in full if st["ok"]])
+            rid += 1
+            out.append({"id": rid, "m": M["name"], "init": init, "full": full, "filt": filt})
+    return out
+
+
 def replay_paths(machines, facs, edges_by_m, walks_by_m):
     """Returns list of observation records (kind seq)."""
     obs = []
@@ -282,12 +326,36 @@ def run(ctx: Ctx):
 
     def main2(s):
         holder["obs"] = replay_paths(machines, facs, edges_by_m, walks)
+        holder["rej"] = reject_runs(machines, facs, ctx.seed, 30 if ctx.quick else 300, 14)
 
     s = simrt.run(main2, wall_timeout=1800)
     if s.outcome != "done" or s.errors:
         raise Machinery(f"replay failed: {s.outcome} {s.errors}")
     obs = holder["obs"]
 
+    rej = holder["rej"]
+    fr = wd / "reject_runs.json"
+    fr.write_text(json.dumps([{k: r_[k] for k in ("id", "init", "full", "filt")} for r_ in rej]))
+    rjr = tlc.run("RejectJudge", cfg_text="", workdir=wd, workers=1, env={"TRACE_FILE": str(fr)}, what="reject_judge", coverage=False, timeout=1800)
+    tlc.require_ok(rjr, "RejectJudge")
+    vr = {v["id"]: v for v in rjr.tagged("V")}
+    if len(vr) != len(rej):
+        raise Machinery(f"RejectJudge: {len(vr)} verdicts for {len(rej)} runs")
+    ctx.traces += len(rej)
+    ctx.evaluations += sum(len(r_["full"]) for r_ in rej)
+    ctx.extra["histories_with_and_without_the_rejected_requests"] = len(rej)
+    ctx.extra["rejected_requests_in_them"] = sum(1 for r_ in rej for st in r_["full"] if not st["ok"])
+    shown = 0
+    for r_ in rej:
+        v = vr[r_["id"]]
+        if v["clause"] != "ok" and shown < 10:
+            shown += 1
+            acc = [st for st in r_["full"] if st["ok"]]
+            at = v["at"]
+            ctx.violation({"check": "reject-history", "clause": v["clause"], "machine": r_["m"], "requests": [st["t"] + ("" if st["ok"] else " (rejected)") for st in r_["full"]],
+                           "with_rejected": acc[at - 1] if at else None, "without_rejected": r_["filt"][at - 1] if at else None,
+                           "what": f"{r_['m']}: {v['clause']}: requests {[st['t'] + ('' if st['ok'] else '!') for st in r_['full']]}"
+                                   + (f"; accepted request {at} ({acc[at - 1]['t']}) ends in {acc[at - 1]['cur']} after the rejected ones, in {r_['filt'][at - 1]['cur']} without them" if at else "")})
     batch, groups, verdicts = judge(ctx, wd, obs, "seq")
     ctx.traces += len(obs)
     ctx.evaluations += len(obs)
